@@ -6,6 +6,7 @@
 cd "$(dirname "$0")"; . ./env.sh
 SRC=${1:?dir}; P=${2:-6}; SET=$(basename "$SRC" | sed 's/^rf-//')
 WT=/tmp/rfe-$SET
+cp bin/calint /tmp/rfe-calint-$SET; export CALINT_BIN=/tmp/rfe-calint-$SET
 [ -d $WT ] || git -C /repo worktree add --detach $WT HEAD -q
 git -C $WT checkout -q --detach "$(git -C /repo rev-parse HEAD)"
 for d in "$SRC"/REFACTOR/*/; do
